@@ -12,6 +12,9 @@ Line-protocol driver for C18 (decimal amount strings <-> 18-decimal integers).
   erc20 <int> <d>          FormatDecimalForERC20(n, d)    -> ok <int> | nil
   rocket <int> <d>         FormatDecimalForRocket(n, d)   -> ok <int> | nil
   evmval <int>             ConvertTx -> decodeContractData -> ok <int> | err
+  ft <d> <step>...         fresh AccountDB, token bound with d decimals; steps s<int> (SetFT),
+                           a<int> (AddFT), u<int> (SubFT), g (GetFT); one answer token per step:
+                           s | a | u:<0|1>:<int|nil> | g:<int|nil>   (NILPANIC if Go would deref nil)
 
 Strings travel as hex of their bytes (a byte b is the character with code b; the
 model only ever inspects ASCII). `parse` of a finite amount whose binary exponent
@@ -62,6 +65,37 @@ def parseGuarded (s : Str) (d : Int) : String :=
 
 def okDec (d : Int) : Bool := -1000 ≤ d && d ≤ 5000
 
+def showResTok : Res → String
+  | .ok v => toString v
+  | .err => "nil"
+  | .panic => "PANIC"
+
+/-- run the steps of an `ft` op on the slot content `bal`; `none` = malformed step. -/
+def ftSteps (d : Int) : List String → Nat → List String → Option (List String)
+  | [], _, acc => some acc.reverse
+  | st :: rest, bal, acc =>
+    match st.toList with
+    | ['g'] => ftSteps d rest bal (("g:" ++ showResTok (ftGet d bal)) :: acc)
+    | 's' :: num =>
+      match (String.ofList num).toInt? with
+      | none => none
+      | some n => match ftSet d n with
+        | some b => ftSteps d rest b ("s" :: acc)
+        | none => some (("NILPANIC" :: acc).reverse)
+    | 'a' :: num =>
+      match (String.ofList num).toInt? with
+      | none => none
+      | some n => match ftAdd d bal n with
+        | some b => ftSteps d rest b ("a" :: acc)
+        | none => some (("NILPANIC" :: acc).reverse)
+    | 'u' :: num =>
+      match (String.ofList num).toInt? with
+      | none => none
+      | some n => match ftSub d bal n with
+        | some (ok, b, r) => ftSteps d rest b (("u:" ++ b01 ok ++ ":" ++ showResTok r) :: acc)
+        | none => some (("NILPANIC" :: acc).reverse)
+    | _ => none
+
 def step (_ : Unit) (line : String) : Unit × String :=
   match splitWords line with
   | ["parse", h, d] =>
@@ -97,6 +131,15 @@ def step (_ : Unit) (line : String) : Unit × String :=
   | ["evmval", n] =>
     match n.toInt? with
     | some n => ((), showRes "err" (evmValue n))
+    | none => ((), "bad-op")
+  | "ft" :: d :: steps =>
+    match d.toInt? with
+    | some d =>
+      if 0 ≤ d && d ≤ 5000 then
+        match ftSteps d steps 0 [] with
+        | some out => ((), String.intercalate " " ("ft" :: out))
+        | none => ((), "bad-op")
+      else ((), "unmodelled")
     | none => ((), "bad-op")
   | _ => ((), "bad-op")
 
